@@ -134,6 +134,9 @@ class ComponentLevel2( ComponentLevel1 ):
 
         if current_idx == "*": # special case, materialize all objects
           if isinstance( obj, NamedObject ): # Signal[*] is the signal itself
+            # s.x[ s.idx ] <<= ... assigns to a temporary copy of the bit(s)
+            if update_ff and is_write:
+              raise UpdateFFNonTopLevelSignalError( s, func, nodelist[node_depth].lineno )
             objs.add( obj )
           else:
             for i, child in enumerate( obj ):
